@@ -229,6 +229,36 @@ theorem Frame.plug_error (F : Frame) (Γ Γ' : Env) (e : Expr) (d : Diag)
   | subE pre post =>
     obtain ⟨⟨lv, h1⟩, rfl⟩ := seq_pure_ok (by simpa [Frame.env] using henv)
     simp [Frame.plug, tc, tcRows_app_error Γ' e post d he pre lv h1]
+  | ifLetE ln gln en it t f => simp [Frame.env] at henv; subst henv; simp [Frame.plug, tc, he]
+  | ifLetT ln gln en it e0 f =>
+    simp only [Frame.env] at henv
+    cases h1 : tc Γ e0 with
+    | error d' => simp [h1] at henv
+    | ok ce =>
+      simp only [h1, bind_ok] at henv
+      simp only [Frame.plug, tc, h1, bind_ok]
+      split at henv
+      · rename_i en' hct
+        cases h2 : guardItemPre Γ gln en it with
+        | error d' => simp [h2] at henv
+        | ok u => simp [h2] at henv; subst henv; simp [hct, h2, he]
+      · simp at henv
+  | ifLetF ln gln en it e0 t =>
+    simp only [Frame.env] at henv
+    cases h1 : tc Γ e0 with
+    | error d' => simp [h1] at henv
+    | ok ce =>
+      simp only [h1, bind_ok] at henv
+      simp only [Frame.plug, tc, h1, bind_ok]
+      split at henv
+      · rename_i en' hct
+        cases h2 : guardItemPre Γ gln en it with
+        | error d' => simp [h2] at henv
+        | ok u =>
+          cases h3 : tc Γ t with
+          | error d' => simp [h2, h3] at henv
+          | ok ct => simp [h2, h3] at henv; subst henv; simp [hct, h2, h3, he]
+      · simp at henv
 
 theorem seq_pure_error {α} {m : Except Diag α} {Γ : Env} {d : Diag}
     (h : (m >>= fun _ => (pure Γ : Except Diag Env)) = .error d) : m = .error d := by
@@ -459,6 +489,46 @@ theorem Frame.plug_prefix (F : Frame) (Γ : Env) (e : Expr) (d : Diag)
   | subE pre post =>
     have h1 := seq_pure_error (by simpa [Frame.env] using henv)
     simp [Frame.plug, tc, tcRows_app_prefix Γ pre _ d h1]
+  | ifLetE ln gln en it t f => simp [Frame.env] at henv
+  | ifLetT ln gln en it e0 f =>
+    simp only [Frame.env] at henv
+    cases h1 : tc Γ e0 with
+    | error d' => simp [h1] at henv; subst henv; simp [Frame.plug, tc, h1]
+    | ok ce =>
+      simp only [h1, bind_ok] at henv
+      simp only [Frame.plug, tc, h1, bind_ok]
+      split at henv
+      · rename_i en' hct
+        cases h2 : guardItemPre Γ gln en it with
+        | error d' => simp [h2] at henv; subst henv; simp [hct, h2]
+        | ok u => simp [h2] at henv
+      · rename_i hne
+        simp at henv; subst henv
+        split
+        · rename_i en' hct
+          exact absurd hct (hne en')
+        · rfl
+  | ifLetF ln gln en it e0 t =>
+    simp only [Frame.env] at henv
+    cases h1 : tc Γ e0 with
+    | error d' => simp [h1] at henv; subst henv; simp [Frame.plug, tc, h1]
+    | ok ce =>
+      simp only [h1, bind_ok] at henv
+      simp only [Frame.plug, tc, h1, bind_ok]
+      split at henv
+      · rename_i en' hct
+        cases h2 : guardItemPre Γ gln en it with
+        | error d' => simp [h2] at henv; subst henv; simp [hct, h2]
+        | ok u =>
+          cases h3 : tc Γ t with
+          | error d' => simp [h2, h3] at henv; subst henv; simp [hct, h2, h3]
+          | ok ct => simp [h2, h3] at henv
+      · rename_i hne
+        simp at henv; subst henv
+        split
+        · rename_i en' hct
+          exact absurd hct (hne en')
+        · rfl
 
 
 /-! ## stacks of frames and whole programs -/
